@@ -86,7 +86,9 @@ def _prune():
     except OSError:
         return
     ents.sort(key=lambda p: os.path.getmtime(p))
-    while len(ents) > MAX_ENTRIES:
+    import time
+    # never an entry that was used in the last two hours: another check process may be building in it right now
+    while len(ents) > MAX_ENTRIES and time.time() - os.path.getmtime(ents[0]) > 2 * 3600:
         shutil.rmtree(ents.pop(0), ignore_errors=True)
 
 
